@@ -89,6 +89,21 @@ def body_inproc(cube, **kw):
             return 'the second generation changed the first graph'
         if m._to_dict() != md0 or lg._lang_spec != sp0:
             return 'the second generation changed model or language'
+        # two further graphs generated back to back, then the OLDER one is attached and analysed
+        from maltoolbox.attackgraph import AttackGraph as _AG
+        from maltoolbox.attackgraph.analyzers.apriori import calculate_viability_and_necessity as _calc
+        g3 = _AG(lg, m)
+        g4 = _AG(lg, m)
+        g3.attach_attackers()
+        _calc(g3)
+        if g3._to_dict() != d1:
+            return 'a graph that is attached and analysed after another graph was generated from the same model differs from the first result'
+        for a_ in g3.attackers:
+            for n_ in a_.reached_attack_steps + a_.entry_points:
+                if not has_identity(g3.nodes, n_):
+                    return 'attaching attackers to one graph reached a node of another graph generated from the same model'
+        if _AG(lg, m)._to_dict() != g4._to_dict():
+            return 'a freshly generated graph differs from the one generated before the attach/analysis of its sibling'
         if via > 0:
             from maltoolbox.wrappers import create_attack_graph
             _CNT[0] += 1
@@ -108,6 +123,16 @@ def body_inproc(cube, **kw):
                 os.makedirs('tmp', exist_ok=True)
                 gw = create_attack_graph(lp, mp)
                 dw = gw._to_dict()
+                # the other switch combinations of the wrapper against the same steps of the direct API
+                for at_, ca_ in ((False, True), (True, False), (False, False)):
+                    gx = create_attack_graph(lp, mp, attach_attackers=at_, calc_viability_and_necessity=ca_)
+                    gy = _AG(lg, m)
+                    if at_:
+                        gy.attach_attackers()
+                    if ca_:
+                        _calc(gy)
+                    if gx._to_dict() != gy._to_dict():
+                        return 'create_attack_graph(attach_attackers=%s, calc_viability_and_necessity=%s) differs from the direct API' % (at_, ca_)
             finally:
                 shutil.rmtree(d, ignore_errors=True)
             if dw != d1:
